@@ -1,6 +1,7 @@
 import OmplModel.Proofs.PhsReal
 import Mathlib.Analysis.SpecialFunctions.Gamma.Basic
 import Mathlib.Analysis.SpecialFunctions.Gaussian.GaussianIntegral
+import Mathlib.MeasureTheory.Measure.Lebesgue.VolumeOfBalls
 import Mathlib.Tactic.Linarith
 import Mathlib.Tactic.Ring
 import Mathlib.Tactic.Positivity
@@ -109,6 +110,24 @@ theorem unitNBall_three : (unitNBallMeasure 3 : ℝ) = 4 / 3 * Real.pi := by
   have := unitNBall_rec 1
   rw [unitNBall_one] at this
   rw [this]; norm_num; ring
+
+/-- `unitNBallMeasure n` is the Lebesgue volume of the Euclidean unit ball of `ℝⁿ` (every `n`,
+including the one-point space `n = 0`) -/
+theorem unitNBall_volume (n : ℕ) :
+    MeasureTheory.volume (Metric.ball (0 : EuclideanSpace ℝ (Fin n)) 1)
+      = ENNReal.ofReal (unitNBallMeasure n) := by
+  cases n with
+  | zero =>
+    rw [unitNBall_zero, ENNReal.ofReal_one]
+    have hball : Metric.ball (0 : EuclideanSpace ℝ (Fin 0)) 1 = Set.univ := by
+      ext x
+      simp [-PhsR.ofNat_lit, Subsingleton.elim x 0]
+    rw [hball, ← (PiLp.volume_preserving_toLp (Fin 0)).measure_preimage
+      MeasurableSet.univ.nullMeasurableSet]
+    simp [-PhsR.ofNat_lit, MeasureTheory.volume_pi]
+  | succ k =>
+    rw [EuclideanSpace.volume_ball, Fintype.card_fin, ENNReal.ofReal_one, one_pow, one_mul,
+      unitNBall_eq]
 
 /-! ### the PHS measure -/
 
